@@ -141,7 +141,7 @@ func (h *genericContextualizer) Execute(ctx heimdall.Context, sub *subject.Subje
 	}
 
 	if h.ttl > 0 {
-		cacheKey = h.calculateCacheKey(sub, vals, payload)
+		cacheKey = h.calculateCacheKey(ctx, sub, vals, payload)
 		if entry, err := cch.Get(ctx.AppContext(), cacheKey); err == nil {
 			var cd contextualizerData
 
@@ -352,6 +352,7 @@ func (h *genericContextualizer) readResponse(ctx heimdall.Context, resp *http.Re
 }
 
 func (h *genericContextualizer) calculateCacheKey(
+	ctx heimdall.Context,
 	sub *subject.Subject,
 	values map[string]string,
 	payload string,
@@ -373,6 +374,16 @@ func (h *genericContextualizer) calculateCacheKey(
 	write(stringx.ToBytes(h.id))
 	write(stringx.ToBytes(strings.Join(h.fwdHeaders, ",")))
 	write(stringx.ToBytes(strings.Join(h.fwdCookies, ",")))
+
+	// the values of the forwarded headers and cookies reach the endpoint and may influence its response
+	for _, headerName := range h.fwdHeaders {
+		write(stringx.ToBytes(ctx.Request().Header(headerName)))
+	}
+
+	for _, cookieName := range h.fwdCookies {
+		write(stringx.ToBytes(ctx.Request().Cookie(cookieName)))
+	}
+
 	write(stringx.ToBytes(payload))
 	write(ttlBytes)
 	write(sub.Hash())
